@@ -193,6 +193,12 @@ def run(ctx):
         A.include(ctx, r, 'c08', 'R08.5', pick=('result:',))
         A.include(ctx, r, 'c08', 'R08.1', pick=('seal-dominates',))
 
+    with ctx.rule('R05.8', 'a failing write ends the loop with IoErrorWritingSocket; only would-block is retried (shared with C01)', floor=5) as r:
+        A.include(ctx, r, 'c01', 'R01.2', pick=('rows', 'row-count', 'error:', 'would-block', 'operand-identity'))
+    with ctx.rule('R05.9', 'every request of a handle goes through the one send path that reads the queued close reason on failure (shared with C09 / C13)', floor=8) as r:
+        A.include(ctx, r, 'c09', 'R09.3')
+        A.include(ctx, r, 'c13', 'R13.3', pick=('same-fifo',))
+
     with ctx.rule('R05.5', 'close joins the I/O thread and reports its error in preference to the close call\'s own result', floor=5) as r:
         fnp = 'connection::Connection::close_impl'
         evs, ret = ctx.events(fnp)
@@ -214,7 +220,7 @@ def run(ctx):
         r.check('result', len(some) == 1 and some[0].value_str() == 'io_loop::channel_handle::Channel0Handle::close_connection(self.channel0)' and len(none) == 1 and none[0].value_str() == 'Ok(())', site,
                 built=[x.row() for x in rows])
         evs2, _ = ctx.events('<connection::Connection as std::ops::Drop>::drop')
-        r.check('drop-closes', any(e.kind == 'call' and e.callee == fnp for e in evs2), ctx.site('<connection::Connection as std::ops::Drop>::drop'))
+        r.check('drop-closes', any(e.kind == 'call' and e.callee == fnp and S.unconditional(e, evs2) for e in evs2), ctx.site('<connection::Connection as std::ops::Drop>::drop'))
         ev = ctx.evaluator(0)
         t = ev.run_fn('connection::Connection::close', [('var', 'self', -1)])
         r.eq('close', S.show(t), fnp + '(self)', ctx.site('connection::Connection::close'))
